@@ -7,11 +7,13 @@ STR_LABELS = ["u", "v", "w", "xx", "y", "zed", "k9", "m", "n0"]
 def rand_hypergraph_spec(rng, nmin=3, nmax=8, emin=2, emax=10, smin=2, smax=5, labels=None, singletons=0.0):
     """{'nodes': [...], 'edges': [[...], ...]}: duplicate-free hyperedges over comparable labels."""
     n = rng.randint(nmin, nmax)
-    lab = labels or rng.choice(["int", "int", "str", "bigint"])
+    lab = labels or rng.choice(["int", "int", "str", "bigint", "numstr"])
     if lab == "int":
         nodes = list(range(n))
     elif lab == "str":
         nodes = rng.sample(STR_LABELS, n)
+    elif lab == "numstr":
+        nodes = rng.sample(["1", "2", "10", "9", "03", "21", "100", "11", "20"], n)
     else:
         nodes = rng.sample([-7, -1, 3, 10, 55, 10**9, 12, 77, 1000], n)
     m = rng.randint(emin, emax)
